@@ -23,6 +23,8 @@ pub enum Payload {
     Mutated(Vec<(u16, u8)>),
     /// a valid request cut at this offset (scaled)
     Truncated(u16),
+    /// the first n bytes of a valid request (cuts inside the 8-byte preamble and the first length prefix)
+    Prefix(u8),
     /// first (header) or second (body) frame length overwritten
     HugeLen { second: bool, len: u32 },
     /// valid preamble, frame whose bincode header announces absurd lengths / invalid UTF-8
@@ -68,6 +70,16 @@ pub enum Action {
     Honest(bool),
     /// V calls Z; Z answers like this; the call must return
     VCallsZ(Resp),
+    /// V dials a second hostile endpoint that completes TLS but misbehaves in anemo's
+    /// acknowledgement: 0 never acknowledges, 1 wrong preamble, 2 junk + reset, 3 closes at once,
+    /// 4 acknowledges correctly and then floods uni streams, 5 acknowledges correctly, then
+    /// crashes without a close and comes back remembering only its stateless-reset key, so that
+    /// the victim's next packet is answered with a valid stateless reset
+    VDialsHostileListener(u8),
+    /// `rounds` further hostile peers (valid identities) connect one after the other; each opens
+    /// `streams` request streams carrying an incomplete or slow request, holds them, and closes
+    /// its connection abruptly with the requests still in flight
+    FloodRounds { rounds: u8, streams: u8, slow: bool },
     Sleep(u8),
 }
 
@@ -100,6 +112,7 @@ fn payload_bytes(p: &Payload, id: u64) -> Vec<u8> {
             b
         }
         Payload::Truncated(n) => valid[..idx(*n, valid.len())].to_vec(),
+        Payload::Prefix(n) => valid[..(*n as usize).min(valid.len())].to_vec(),
         Payload::HugeLen { second, len } => {
             let mut b = valid;
             let off = if *second { 12 + u32::from_be_bytes(b[8..12].try_into().unwrap()) as usize } else { 8 };
@@ -253,6 +266,9 @@ pub fn check(case: &Case, obs: &mut Obs) -> Result<(), Fail> {
             });
         }
         let mut held: Vec<(quinn::SendStream, quinn::RecvStream)> = Vec::new();
+        let mut hostile_listeners = 0u32;
+        let mut hostile_eps = Vec::new();
+        let (mut flooders, mut total_abandoned_in_flight, mut stateless_resets) = (0u32, 0usize, 0u32);
         let mut next_id = 100u64;
         let (mut n_malformed, mut n_honest, mut n_wellformed) = (0, 0, 0);
 
@@ -349,6 +365,124 @@ pub fn check(case: &Case, obs: &mut Obs) -> Result<(), Fail> {
                         Err(()) => vfail!("c06:call-to-hostile-peer-hung", "{when}: the victim's RPC to the hostile peer did not return within 10 virtual seconds (outbound default 3 s)"),
                     }
                 }
+                Action::FloodRounds { rounds, streams, slow } => {
+                    n_malformed += 1;
+                    for r in 0..*rounds {
+                        flooders += 1;
+                        let w_seed = key_seed(3000 + flooders as u64);
+                        let wp = Presented::honest(&w_seed, "simnet");
+                        let Ok(w_ep) = adv::raw_endpoint(&sim.fabric, node_addr(120 + (flooders % 100) as u8), None) else { continue };
+                        let wc = match within(10_000, adv::dial_and_await_ack(&w_ep, adv::client_config(Some(&wp), Arc::new(Mutex::new(Vec::new()))), v.addr(), "simnet")).await {
+                            Ok(Ok(c)) => c,
+                            other => vfail!("c06:stopped-accepting", "{when}: hostile peer number {flooders} (valid identity) was not admitted: {:?}", other.map(|r| r.map(|_| ()))),
+                        };
+                        let mut hold = Vec::new();
+                        for k in 0..*streams {
+                            next_id += 1;
+                            let bytes = if *slow {
+                                // a complete request whose handler takes 30 s
+                                let ctl = Ctl { id: next_id, delay_ms: 30_000, status_idx: 0, resp_len: 8, resp_hdrs: 0, mode: 0 };
+                                rw::encode_request(&rw::RefRequest { version: 1, route: ROUTES[0].to_string(), headers: vec![], body: ctl.encode(recorder::CTL_LEN).to_vec() })
+                            } else {
+                                let (valid, _, _) = template(next_id, ROUTES[0], &[], 60);
+                                valid[..(8 + (k as usize + r as usize) % (valid.len() - 8))].to_vec()
+                            };
+                            match within(200, wc.open_bi()).await {
+                                Ok(Ok((mut tx, rx))) => { let _ = within(2_000, tx.write_all(&bytes)).await; if *slow { let _ = tx.finish(); } hold.push((tx, rx)); }
+                                _ => break,
+                            }
+                        }
+                        sleep_ms(2 * case.link_delay_ms as u64 + 5).await;
+                        total_abandoned_in_flight += hold.len();
+                        wc.close(quinn::VarInt::from_u32(r as u32), b"bye");
+                        drop(hold);
+                        drop(wc);
+                        let _ = within(3_000, w_ep.wait_idle()).await;
+                        drop(w_ep);
+                    }
+                    sleep_ms(100).await;
+                }
+                Action::VDialsHostileListener(kind) if *kind % 6 == 5 => {
+                    n_malformed += 1;
+                    hostile_listeners += 1;
+                    let addr = node_addr(10 + hostile_listeners as u8);
+                    let y_seed = key_seed(390 + hostile_listeners as u64);
+                    let yp = Presented::honest(&y_seed, "simnet");
+                    let y_id = peer_id_of_seed(&y_seed);
+                    let reset_key = [0x5a_u8; 64];
+                    let server = || adv::server_config(&yp, false, Arc::new(Mutex::new(Vec::new())), Arc::new(Mutex::new(Vec::new())));
+                    let Ok(ep) = adv::raw_endpoint_remembering_resets(&sim.fabric, addr, Some(server()), &reset_key) else { continue };
+                    let ep2 = ep.clone();
+                    let crash = Arc::new(tokio::sync::Notify::new());
+                    let crash2 = crash.clone();
+                    let task = tokio::spawn(async move {
+                        let Ok(conn) = adv::accept_and_ack(&ep2).await else { return };
+                        crash2.notified().await;
+                        drop(conn);
+                    });
+                    match within(12_000, v.net.connect(addr)).await {
+                        Ok(Ok(p)) => vensure!(p == y_id, "c06:hostile-listener-id", "{when}: connect returned {p}"),
+                        Ok(Err(_)) => { task.abort(); continue; }
+                        Err(()) => vfail!("c06:dial-to-hostile-listener-hung", "{when}: the victim's dial did not return within 12 virtual seconds (connect timeout 10 s)"),
+                    }
+                    // crash: nothing of the old life's goodbye reaches the victim
+                    sim.fabric.set_blackhole(addr, true);
+                    crash.notify_one();
+                    let _ = task.await;
+                    ep.close(0u32.into(), b"");
+                    drop(ep);
+                    let mut gone = false;
+                    for _ in 0..200 {
+                        if !sim.fabric.is_bound(addr) { gone = true; break; }
+                        sleep_ms(50).await;
+                    }
+                    sim.fabric.set_blackhole(addr, false);
+                    if !gone { obs.label("reset-scenario:old-endpoint-lingered"); continue; }
+                    // second life: same address, same reset key, no memory of the connection
+                    let Ok(ep) = adv::raw_endpoint_remembering_resets(&sim.fabric, addr, Some(server()), &reset_key) else { continue };
+                    let before = sim.fabric.bytes_sent_from(addr);
+                    let ctl = Ctl { id: 800_000 + hostile_listeners as u64, delay_ms: 0, status_idx: 0, resp_len: 8, resp_hdrs: 0, mode: 0 };
+                    match within(15_000, v.net.rpc(y_id, ctl_request(ROUTES[0], &[], &ctl, 300))).await {
+                        Ok(_) => {}
+                        Err(()) => vfail!("c06:call-to-hostile-peer-hung", "{when}: the victim's RPC to the restarted hostile peer did not return within 15 virtual seconds (outbound default 3 s)"),
+                    }
+                    sleep_ms(4 * case.link_delay_ms as u64 + 20).await;
+                    if sim.fabric.bytes_sent_from(addr) > before { obs.label("stateless-reset-sent-to-victim"); stateless_resets += 1; }
+                    hostile_eps.push(ep);
+                }
+                Action::VDialsHostileListener(kind) => {
+                    let kind = *kind % 5;
+                    n_malformed += 1;
+                    hostile_listeners += 1;
+                    let addr = node_addr(10 + hostile_listeners as u8);
+                    let y_seed = key_seed(390 + hostile_listeners as u64);
+                    let yp = Presented::honest(&y_seed, "simnet");
+                    let Ok(ep) = adv::raw_endpoint(&sim.fabric, addr, Some(adv::server_config(&yp, false, Arc::new(Mutex::new(Vec::new())), Arc::new(Mutex::new(Vec::new()))))) else { continue };
+                    let ep2 = ep.clone();
+                    tokio::spawn(async move {
+                        let Some(incoming) = ep2.accept().await else { return };
+                        let Ok(conn) = incoming.await else { return };
+                        match kind {
+                            0 => { tokio::time::sleep(Duration::from_secs(3600)).await; }
+                            1 => { if let Ok(mut u) = conn.open_uni().await { let _ = u.write_all(b"http3\0\x01\0").await; let _ = u.finish(); let _ = u.stopped().await; } }
+                            2 => { if let Ok(mut u) = conn.open_uni().await { let _ = u.write_all(&[0xff; 3]).await; let _ = u.reset(9u32.into()); } tokio::time::sleep(Duration::from_secs(5)).await; }
+                            3 => conn.close(77u32.into(), &[0xfe, 0xff]),
+                            _ => {
+                                if let Ok(mut u) = conn.open_uni().await { let _ = u.write_all(&adv::PREAMBLE).await; let _ = u.finish(); let _ = u.stopped().await; }
+                                for _ in 0..50 { if let Ok(mut u) = conn.open_uni().await { let _ = u.write_all(&[1, 2, 3]).await; let _ = u.finish(); } }
+                                tokio::time::sleep(Duration::from_secs(2)).await;
+                            }
+                        }
+                        drop(conn);
+                    });
+                    // the dial must return (Ok only for the well-behaved acknowledgement), bounded by the connect timeout
+                    match within(12_000, v.net.connect(addr)).await {
+                        Ok(Ok(_)) => vensure!(kind == 4, "c06:hostile-listener-admitted", "{when}: the victim's dial to a listener that {} succeeded", ["never acknowledges", "sends a wrong preamble", "sends junk and resets", "closes at once", ""][kind as usize]),
+                        Ok(Err(_)) => {}
+                        Err(()) => vfail!("c06:dial-to-hostile-listener-hung", "{when}: the victim's dial did not return within 12 virtual seconds (connect timeout 10 s)"),
+                    }
+                    hostile_eps.push(ep);
+                }
                 Action::Sleep(ms) => sleep_ms(*ms as u64).await,
             }
             check_no_panics(&when)?;
@@ -375,6 +509,8 @@ pub fn check(case: &Case, obs: &mut Obs) -> Result<(), Fail> {
         check_no_panics("at the end")?;
         obs.evals(case.actions.len() as u64);
         obs.label(format!("malformed>0={} honest>0={} wellformed>0={}", n_malformed > 0, n_honest > 0, n_wellformed > 0));
+        if total_abandoned_in_flight >= 512 { obs.label("connections-closed-with->=512-requests-in-flight-in-total"); }
+        let _ = stateless_resets;
         if n_malformed > 0 && (n_honest > 0 || n_wellformed > 0) {
             obs.nontrivial(&case);
         }
@@ -387,6 +523,7 @@ fn payload() -> BoxedStrategy<Payload> {
         2 => prop::collection::vec(any::<u8>(), 0..300).prop_map(Payload::Random),
         3 => prop::collection::vec((any::<u16>(), any::<u8>()), 1..4).prop_map(Payload::Mutated),
         3 => any::<u16>().prop_map(Payload::Truncated),
+        2 => (0u8..14).prop_map(Payload::Prefix),
         2 => (any::<bool>(), prop_oneof![Just(u32::MAX), Just(65_537u32), Just(65_536u32), Just(1u32 << 31), any::<u32>()]).prop_map(|(second, len)| Payload::HugeLen { second, len }),
         2 => (0u8..6).prop_map(Payload::HostileHeader),
         4 => (prop_oneof![3 => prop::sample::select(vec!["/exact", "/wild/x", "/wild/", "/svc.Name/m", "", "/", "//", "/exact/", "/:a", "/*a", "/wild/*rest", "no-slash"]).prop_map(str::to_string), 1 => "\\PC{0,80}", 1 => "[é/]{30,90}"],
@@ -402,7 +539,7 @@ impl Part for Scripts {
     type Case = Case;
     fn name(&self) -> &'static str { "hostile-scripts" }
     fn rule(&self) -> &'static str {
-        "victim = Router (exact, wildcard, rpc-style routes) behind the network's own layers with max_frame_size and timeouts set; honest peer H; adversary Z = raw QUIC endpoint with a VALID identity, admitted; Z's generated script: request streams carrying {random bytes, mutated valid request, valid request truncated at a generated offset, frame lengths up to 0xFFFFFFFF, valid preamble + hostile bincode (huge string/map lengths, invalid UTF-8, 10^4-char route), well-formed requests with odd routes and timeout-header values (0, tiny, huge, garbage)} ended by {finish, reset, stop of the response side, hold open, read}, bursts of held streams, uni streams, datagrams, hostile RESPONSES when the victim calls Z (junk, truncated, unknown status, oversized, reset, never), interleaved with honest H<->V RPCs and well-formed Z RPCs, then an abrupt close with arbitrary code and (non-UTF-8) reason bytes; oracle: no panic anywhere, victim not closed, every honest RPC and every well-formed Z RPC answered with exactly F(request), calls to Z return, a fresh connection is accepted and served afterwards; non-trivial = script with >=1 malformed stream and >=1 concurrent honest or well-formed RPC; distinct by script"
+        "victim = Router (exact, wildcard, rpc-style routes) behind the network's own layers with max_frame_size and timeouts set; honest peer H; adversary Z = raw QUIC endpoint with a VALID identity, admitted; Z's generated script: request streams carrying {random bytes, mutated valid request, valid request truncated at a generated offset (also inside the preamble and the first length prefix), frame lengths up to 0xFFFFFFFF, valid preamble + hostile bincode (huge string/map lengths, invalid UTF-8, 10^4-char route), well-formed requests with odd routes and timeout-header values (0, tiny, huge, garbage)} ended by {finish, reset, stop of the response side, hold open, read}, bursts of held streams, uni streams, datagrams, hostile RESPONSES when the victim calls Z (junk, truncated, unknown status, oversized, reset, never), hostile LISTENERS the victim dials (never acknowledge, wrong preamble, junk + reset, immediate close with non-UTF-8 reason, uni-stream flood after a correct acknowledgement, crash without close + restart answering the victim's next packet with a valid stateless reset), rounds of up to 9 further hostile peers each abandoning up to 100 in-flight (incomplete or slow) requests by closing abruptly, interleaved with honest H<->V RPCs and well-formed Z RPCs, then an abrupt close with arbitrary code and (non-UTF-8) reason bytes; oracle: no panic anywhere, victim not closed, every honest RPC and every well-formed Z RPC answered with exactly F(request), calls to Z return, a fresh connection is accepted and served afterwards; non-trivial = script with >=1 malformed stream and >=1 concurrent honest or well-formed RPC; distinct by script"
     }
     fn strategy(&self, _t: Tier) -> BoxedStrategy<Case> {
         let ending = prop_oneof![3 => Just(Ending::Finish), 2 => any::<u8>().prop_map(Ending::Reset), 1 => any::<u8>().prop_map(Ending::StopResponse), 1 => Just(Ending::HoldOpen), 2 => Just(Ending::FinishAndRead)];
@@ -418,6 +555,8 @@ impl Part for Scripts {
             3 => (0u8..3, 0u16..3000).prop_map(|(r, b)| Action::WellFormed(r, b)),
             3 => any::<bool>().prop_map(Action::Honest),
             2 => resp.prop_map(Action::VCallsZ),
+            1 => (0u8..6).prop_map(Action::VDialsHostileListener),
+            1 => (prop_oneof![3 => 1u8..3, 1 => 6u8..10], prop_oneof![1 => 1u8..20, 2 => 90u8..101], any::<bool>()).prop_map(|(rounds, streams, slow)| Action::FloodRounds { rounds, streams, slow }),
             1 => (0u8..50).prop_map(Action::Sleep),
         ];
         (prop::collection::vec(action, 1..25), prop::option::weighted(0.8, (any::<u32>().prop_map(|c| c & 0x3fff_ffff), prop::collection::vec(any::<u8>(), 0..40))), 1u8..15)
